@@ -62,6 +62,8 @@ CLAIMS = {
  "C03": dict(cat="proof", ref="DESIGN.md §5 C03",
    text="Theorems (Properties_C03.v, axiom-free): in every reachable state of the abstract machine and for every GVT value valid there, the part of an LP's history "
         "below it is a prefix of the history and equals the LP's sequential dispatch sequence below it; commit bounds are monotone (what was released stays a prefix). "
+        "At process.c / fossil.c level (C03_worker_committed_is_sequential, worker model, every script incl. GVT announcements and fossil collections): what fossil collection has released followed by the "
+        "retained entries below any g <= GVT is exactly the LP's sequential dispatch sequence below g. "
         "Tie: the fossil-collection hook emits every released entry before it is freed, the shutdown hook the remaining history; per LP the committed sequence "
         "(time, type, size, payload digest) is compared with the extracted reference executor run to exhaustion, for runs ended by predicate, termination time and RootsimStop; "
         "LP-level scripts (messages held in flight while LPs run ahead, GVT rounds that do not advance, programs with silent handlers, checkpoint interval 1) with the op-by-op worker-model correspondence.",
